@@ -1,0 +1,32 @@
+//go:build verif
+
+// Contracts for govc (see /verif/DESIGN.md). Comment-only file: no executable code.
+
+package trie
+
+//@ property C22
+// The object tries are abstract here (the Merkle Patricia trie itself is C17): the methods are
+// trusted not to touch anything the list code owns; the list code is checked for the keys it passes.
+//@ func (t ImmutableForObject) Get(k) (o, err)
+//@   iface
+//@   trusted
+//@   pure
+//@ func (t ImmutableForObject) GetProof(k) (p)
+//@   iface
+//@   trusted
+//@   pure
+//@ func (t MutableForObject) Set(k, o) (old, err)
+//@   iface
+//@   trusted
+//@   pure
+//@ func (t MutableForObject) GetSnapshot() (s)
+//@   iface
+//@   trusted
+//@   pure
+// iter_key: the key most recently handed out by an object iterator
+//@ smt all (declare-ghost iter_key Slice)
+//@ func (i IteratorForObject) Get() (o, k, err)
+//@   iface
+//@   trusted
+//@   pure
+//@   opt ghost:iter_key k
